@@ -1349,8 +1349,8 @@ Proof.
   destruct j2; reflexivity.
 Qed.
 
-Lemma op_agree t r u r' st' : turbofish_ref (t :: r) = None ->
-  operator_step t r = (u, r', st', true) -> expr_alt_ref (t :: r) = Some (u, r').
+Lemma op_agree sec t r u r' st' : turbofish_ref (t :: r) = None ->
+  operator_step sec t r = (u, r', st', true) -> expr_alt_ref (t :: r) = Some (u, r').
 Proof.
   intros Ht. unfold operator_step.
   destruct (is_p c_lt t) eqn:Elt.
@@ -1388,8 +1388,8 @@ Proof.
         -- destruct (type_tok t) eqn:Ett.
            ++ intros H; inversion H; subst. apply ea_plain; auto using qpath_head, bars_head, type_tok_nobar.
            ++ intros H; inversion H as [H1]. eapply op_agree; eassumption.
-    + assert (Hop : Some (operator_step t r) = Some (u, r', st', true) -> expr_alt_ref (t :: r) = Some (u, r')).
-      { intros H; inversion H as [H1]. eapply op_agree; eassumption. }
+    + assert (Hop : forall sec, Some (operator_step sec t r) = Some (u, r', st', true) -> expr_alt_ref (t :: r) = Some (u, r')).
+      { intros sec H; inversion H as [H1]. eapply op_agree; eassumption. }
       assert (Hrest :
         (if is_p c_lt t
          then match qpath_ref (t :: r) with Some (u, r') => Some (u, r', POperand, true) | None => Some ([t], r, POperand, true) end
@@ -1416,7 +1416,7 @@ Proof.
       assert (Hplain : Some ([t], r, POperand, true) = Some (u, r', st', true) ->
                        is_p c_lt t = false -> is_p c_bar t = false -> expr_alt_ref (t :: r) = Some (u, r')).
       { intros H H1 H2; inversion H; subst. apply ea_plain; auto using qpath_head, bars_head. }
-      destruct st; try discriminate Ety; try exact Hop.
+      destruct st; try discriminate Ety; try exact (Hop _).
       * (* POperand *) exact Hrest.
       * (* PMinus *)
         destruct (is_p c_gt t) eqn:Egt; [|exact Hrest].
@@ -1568,7 +1568,7 @@ Qed.
 
 (* ---- the spec splitter is total *)
 
-Lemma op_lossless t r u r' st' ok : operator_step t r = (u, r', st', ok) -> t :: r = u ++ r' /\ u <> [].
+Lemma op_lossless sec t r u r' st' ok : operator_step sec t r = (u, r', st', ok) -> t :: r = u ++ r' /\ u <> [].
 Proof.
   unfold operator_step. destruct (is_p c_lt t); [intros H; inversion H; subst; split; [reflexivity|discriminate]|].
   destruct (is_p c_bar t).
@@ -1584,14 +1584,14 @@ Proof.
   destruct ok; [intros H; apply step_agree in H; now apply expr_alt_ref_lossless|].
   unfold spec_step. destruct c as [|t r]; [discriminate|].
   destruct (turbofish_ref (t :: r)) as [[u0 r0]|] eqn:Et; [discriminate|].
-  assert (Hop : Some (operator_step t r) = Some (u, r', st', false) -> t :: r = u ++ r' /\ u <> []).
-  { intros H; inversion H as [H1]. eapply op_lossless; eassumption. }
+  assert (Hop : forall sec, Some (operator_step sec t r) = Some (u, r', st', false) -> t :: r = u ++ r' /\ u <> []).
+  { intros sec H; inversion H as [H1]. eapply op_lossless; eassumption. }
   destruct (is_type_pos st).
   - destruct (is_p c_lt t).
     + destruct (balanced_pair_ref c_lt c_gt (t :: r)) as [[u1 r1]|] eqn:Eb; [|discriminate].
       intros H; inversion H; subst. now apply bp_ref_lossless in Eb.
     + destruct (match st with PTMinus => is_p c_gt t | _ => false end); [discriminate|].
-      destruct (type_tok t); [discriminate|exact Hop].
+      destruct (type_tok t); [discriminate|exact (Hop _)].
   - assert (Hrest :
         (if is_p c_lt t
          then match qpath_ref (t :: r) with Some (u, r') => Some (u, r', POperand, true) | None => Some ([t], r, POperand, true) end
@@ -1608,7 +1608,7 @@ Proof.
       destruct (balanced_pair_ref c_lt c_gt r) as [[u1 r1]|] eqn:Eb; [|discriminate].
       destruct (str_eqb x kw_for); [|discriminate].
       intros H; inversion H; subst. apply bp_ref_lossless in Eb as [-> _]. split; [reflexivity|discriminate]. }
-    destruct st; try discriminate; try exact Hop; try exact Hrest.
+    destruct st; try discriminate; try exact (Hop _); try exact Hrest.
     + destruct (is_p c_gt t); [discriminate|exact Hrest].
     + destruct t; try exact Hrest; discriminate.
     + destruct t; try exact Hrest; discriminate.
